@@ -89,7 +89,7 @@ def run_task(task: dict) -> dict:
 
     symbolic = getattr(cls, "symbolic", True) and not task.get("bounded_only")
     confirmed_violation = False
-    budget = task.get("solver_budget", 45.0 if tier == "quick" else 900.0)  # per (contract, case), then cheap back ends only
+    budget = task.get("solver_budget", 90.0 if tier == "quick" else 1200.0)  # per (contract, case), then cheap back ends only
     # ---------------------------------------------------------------- symbolic
     if symbolic:
         pending: List[List[bool]] = [[]]
